@@ -171,7 +171,15 @@ def rule_canon(ctx):
     C10.rule_idemp(ctx)
 
 
+def rule_qm(ctx):
+    """'later calls override earlier ones', 'accessors return what was last set' for qualifiers rest on the qualifier map's
+    representation invariant (C11)."""
+    from . import C11
+    C11.invariant_obligations(ctx, ctx.facts(), rule="QM-INV")
+
+
 RULES = [
+    ("QM-INV", rule_qm, 40),
     ("IDEMP", rule_canon, 5),
     ("EFFECT", rule_effect, 17),
     ("BUILD-SUCCESS", rule_build_success, 10),
